@@ -5,7 +5,7 @@ batch of 3-party executions), against Python's `statistics` evaluated on exact F
 
  * secure integers SecInt(12): all data sets over {-2..2} of size 1..4 (5 for mean / median family /
    mode), in every order; all pairs of data sets of size 2..3 for covariance;
- * secure fixed-point SecFxp(12,6) (thorough: also SecFxp(16,8)): all data sets over
+ * secure fixed-point SecFxp(12,6) (thorough: also SecFxp(16,8), sizes <= 3 for the order statistics): all data sets over
    {-1,-1/2,0,1/2,1} of the same sizes; pairs over a reduced alphabet for covariance, correlation,
    linear_regression (division needs l =~ 2f: documented);
  * _quickselect: every outcome of the first K secret pivot / tie-break bits is enumerated
@@ -29,7 +29,7 @@ RULE = ('one case = (function, element type, data set [pair], optional arguments
         '2..3; covariance/correlation/linear_regression: all pairs over {-1,0,1/2,1} (quick: {-1,0,1/2}) of size 2..3, constant x '
         '(and y for correlation) excluded; list / tuple / iterator inputs on the size<=2 data sets; mask scripts seeded, all-zero, '
         'all-max, second seed for every case that draws randomness (quick: seeded and all-max at sizes 4, 5); for the quickselect users all 2^K outcomes of the first K pivot/tie-break bits '
-        '(median family: K = 5/4 at sizes 2/3 quick, 8/8/6 at sizes 2/3/4 thorough; quantiles: K = 3/2 quick, 5/5/3 thorough); non-trivial = at least one random draw or more than one party')
+        '(median family: K = 5/4 at sizes 2/3 quick, 8/7/5 at sizes 2/3/4 thorough; quantiles: K = 3/2 quick, 5/4/2 thorough); non-trivial = at least one random draw or more than one party')
 ASSUMPTIONS = [
     'integers: mean, variance, pvariance are "rounded to the nearest integer" (module docstring): |result - exact| <= 1/2 is demanded, '
     'either neighbour at a tie; stdev/pstdev = integer square root (floor, _isqrt docstring) of an admissible rounded variance; '
@@ -647,7 +647,7 @@ def groups(tier):
         for fn in FNS1:
             top = 5 if fn in ('mean', 'median', 'median_low', 'median_high', 'mode') else 4
             if t == 'fxp8':
-                top = min(top, 4)
+                top = 3 if (fn in ORDER_FNS or fn == 'mode') else 4
             for size in range(1, top + 1):
                 gs.append(('single', fn, t, size))
     for fn in ORDER_FNS:
@@ -877,7 +877,7 @@ def run_mp(job):
 def jobs(tier, seed):
     out = []
     quick = tier == 'quick'
-    K = {'m2': 5, 'm3': 4, 'q2': 3, 'q3': 2} if quick else {'m2': 8, 'm3': 8, 'm4': 6, 'q2': 5, 'q3': 5, 'q4': 3}
+    K = {'m2': 5, 'm3': 4, 'q2': 3, 'q3': 2} if quick else {'m2': 8, 'm3': 7, 'm4': 5, 'q2': 5, 'q3': 4, 'q4': 2}
     gs = groups(tier)
     weights = []
     for g in gs:
@@ -890,37 +890,37 @@ def jobs(tier, seed):
             w *= 2 ** max(0, kk - 2)
         weights.append(w)
     total = sum(weights)
-    target = total / (40 if quick else 56)
+    nbins = 44
+    target = total / nbins
+    units = []
     for g, w in zip(gs, weights):
         parts = max(1, round(w / target))
         for p in range(parts):
-            out.append(dict(engine='sp', k=4, groups=[list(g)], part=p, parts=parts, tier=tier, seed=seed, K=K, weight=w / parts))
+            units.append(dict(engine='sp', k=4, groups=[list(g)], part=p, parts=parts, tier=tier, seed=seed, K=K, weight=w / parts))
+    # greedy bin packing of the units into nbins jobs (largest first into the lightest bin)
+    units.sort(key=lambda u: (-u['weight'], repr(u['groups']), u['part']))
+    bins = [[] for _ in range(nbins)]
+    loads = [0.0] * nbins
+    for u in units:
+        i = min(range(nbins), key=lambda b: (loads[b], b))
+        bins[i].append(u)
+        loads[i] += u['weight']
+    for b, load in zip(bins, loads):
+        if b:
+            out.append(dict(engine='spmulti', subs=b, weight=load))
     # mode depends on sec_param (PRIV = sec_param // 6 bits of the range are not revealed): second parameter
     mg = [list(g) for g in gs if g[1] == 'mode']
-    for p in range(2 if quick else 4):
-        out.append(dict(engine='sp', k=12, groups=mg, part=p, parts=2 if quick else 4, tier=tier, seed=seed, K={}, weight=total))
+    nm = 2 if quick else 4
+    for p in range(nm):
+        out.append(dict(engine='sp', k=12, groups=mg, part=p, parts=nm, tier=tier, seed=seed, K={}, weight=total))
     out.append(dict(engine='errors', k=4, tier=tier, seed=seed, weight=0))
     for no_prss in (False, True):
-        nparts = 4 if quick else 6
+        nparts = 4
         for p in range(nparts):
             out.append(dict(engine='mp', m=3, t=1, no_prss=no_prss, part=p, parts=nparts, tier=tier, seed=seed,
                             patterns=['seeded'] if quick else ['seeded', 'max'], weight=total))
     out.sort(key=lambda j: -j['weight'])
-    # merge the many tiny jobs
-    small = [j for j in out if j['engine'] == 'sp' and j['weight'] < target / 6 and j['k'] == 4]
-    rest = [j for j in out if j not in small]
-    merged, cur, acc = [], [], 0
-    for j in small:
-        cur.append(j)
-        acc += j['weight']
-        if acc >= target / 2:
-            merged.append(cur)
-            cur, acc = [], 0
-    if cur:
-        merged.append(cur)
-    for grp in merged:
-        rest.append(dict(engine='spmulti', subs=grp, weight=sum(j['weight'] for j in grp)))
-    return rest
+    return out
 
 
 def run_job(job):
